@@ -15,7 +15,7 @@ cd $wt || exit 2
 git checkout -q --detach "$(git -C /repo rev-parse HEAD)" && git checkout -q -- . && git clean -fdq
 LENTIL_REPO=$wt /venv/bin/python $src/mut${n}_demo.py > /tmp/demo_clean.log 2>&1; d0=$?
 git apply $src/mut$n.diff || { echo "PATCH DOES NOT APPLY"; exit 2; }
-tests=$(/venv/bin/python -m pytest -q -p no:cacheprovider 2>&1 | tail -1)
+find . -name __pycache__ -prune -exec rm -rf {} + ; tests=$(/venv/bin/python -B -m pytest -q -p no:cacheprovider 2>&1 | tail -1)
 LENTIL_REPO=$wt /venv/bin/python $src/mut${n}_demo.py > /tmp/demo_mut.log 2>&1; d1=$?
 cd /verif
 res=""
